@@ -157,3 +157,69 @@ def diff_dicts(a: "map", b: "map", path: "path", config: "cfg") -> "Seq[ME]":
                       for s in STR))
         invariant(all(implies(s in di._diff and not (s in a),
                               di._diff[s].op == "add" and has_value(di._diff[s]) and di._diff[s].value == b[s]) for s in STR))
+
+
+# ------------------------------------------------------------------ validate_diff (called by the dispatcher on its own result)
+
+@contract("nbdime.diff_format.validate_diff_entry", properties=["C02", "C11"])
+def validate_diff_entry(e: "E", deep: "bool" = False):
+    # shallow validation only (deep=False is what the dispatcher uses): returns without raising for a sequence entry whose
+    # op is known and which carries the field its op needs
+    requires(not deep)
+    requires(e.op == "addrange" or e.op == "removerange" or e.op == "patch")
+    requires(implies(e.op == "addrange", has_valuelist(e)) and implies(e.op == "removerange", has_length(e)))
+
+
+@contract("nbdime.diff_format.validate_diff_entry#map", properties=["C02", "C11"])
+def validate_diff_entry_map(e: "ME", deep: "bool" = False):
+    requires(not deep)
+    requires(e.op == "add" or e.op == "remove" or e.op == "replace" or e.op == "patch")
+
+
+@contract("nbdime.diff_format.validate_diff", properties=["C02", "C11"])
+def validate_diff(diff: "Seq[E]", deep: "bool" = False):
+    requires(not deep)
+    requires(all((diff[q].op == "addrange" or diff[q].op == "removerange" or diff[q].op == "patch") and
+                 implies(diff[q].op == "addrange", has_valuelist(diff[q])) and implies(diff[q].op == "removerange", has_length(diff[q]))
+                 for q in range(len(diff))))
+    with loop(1, index="k"):
+        invariant(not deep)
+
+
+@contract("nbdime.diff_format.validate_diff#map", properties=["C02", "C11"])
+def validate_diff_map(diff: "Seq[ME]", deep: "bool" = False):
+    requires(not deep)
+    requires(all(diff[q].op == "add" or diff[q].op == "remove" or diff[q].op == "replace" or diff[q].op == "patch" for q in range(len(diff))))
+    with loop(1, index="k"):
+        invariant(not deep)
+
+
+# ------------------------------------------------------------------ the type dispatcher of the differ
+
+@assumed("nbdime.diffing.sequences.diff_strings_linewise", properties=["C02", "C01"])
+def diff_strings_linewise(a: "V", b: "V") -> "Seq[E]":
+    # ASSUMED (Kit S not built; difflib based): the line-based string differ returns a well-formed sequence diff that patches a into b.
+    # Exercised at run time by the bounded stand-ins (strings with \r, \x0b, \x85, missing final newline).
+    requires(is_str(a) and is_str(b))
+    ensures(apply_v(a, result) == b)
+    ensures(all((result[q].op == "addrange" or result[q].op == "removerange" or result[q].op == "patch") and
+                implies(result[q].op == "addrange", has_valuelist(result[q])) and implies(result[q].op == "removerange", has_length(result[q]))
+                for q in range(len(result))))
+
+
+@contract("nbdime.diffing.generic.diff", properties=["C02", "C01", "C11"])
+def diff(a: "V", b: "V", path: "path", config: "cfg") -> "Seq[E]":
+    # both values of one container type (otherwise the function raises RuntimeError by design)
+    requires(diffable(a, b))
+    requires(differs_ok() and atomic_ok())
+    # the table contracts of the list differ, needed when a and b are lists
+    requires(implies(is_list(a), len(preds_at(path)) >= 1))
+    requires(implies(is_list(a) and len(preds_at(path)) == 1,
+                     pred_exact(preds_at(path)[0], path_star(path)) and pred_typed(preds_at(path)[0], path_star(path))))
+    requires(implies(is_list(a) and len(preds_at(path)) > 1, preds_diffable(preds_at(path))))
+    # ... and of the dict differ, needed when they are dicts
+    requires(implies(is_dict(a), not has_preds(path_norm(path))))
+    requires(implies(is_dict(a), all(implies(s in as_map(a) and s in as_map(b) and pyeq(as_map(a)[s], as_map(b)[s]) and
+                                             not (same_type(as_map(a)[s], as_map(b)[s]) and not is_atomic(as_map(a)[s], path_key(path, s))),
+                                             as_map(a)[s] == as_map(b)[s]) for s in STR)))
+    ensures(apply_v(a, result) == b)
